@@ -13,7 +13,7 @@ class C18(RecorderProp):
             'lookup (skip incomplete) compared with the saved complete recordings; non-trivial = a recording was saved; '
             'distinct = distinct canonical case')
     OPTS = dict(ALL_OPTS, extractors=True, interrupts=True, sampling=False, faults=False, control=False, play_ratio=0.0,
-                missing_play=False, runs=(1, 4), cassettes=['memory', 'memory', 'file', 's3'])
+                missing_play=False, runs=(1, 4), cassettes=['memory', 'memory', 'file', 's3', 'async'])
     N = {'quick': 3000, 'thorough': 30000}
 
     def gen_one(self, rng, tier):
